@@ -64,6 +64,7 @@ type treeGen struct {
 	big     bool    // json.Number / gen.Big leaves allowed
 	share   bool    // reuse containers (DAG)
 	storage bool    // nil containers and spare capacity
+	mixed   int     // 1: some scalars are generic nodes; 2: some containers too
 	pool    []*node // containers generated so far (for sharing)
 }
 
@@ -114,7 +115,18 @@ func (g *treeGen) root(depth int) *node {
 func (g *treeGen) tree(depth int) *node {
 	r := g.r
 	if depth <= 0 || r.Intn(10) < 3 {
-		return g.scalar()
+		s := g.scalar()
+		if g.mixed > 0 && s.k != 'n' && r.Intn(3) == 0 {
+			s.g = true
+		}
+		return s
+	}
+	if g.mixed == 2 && r.Intn(5) == 0 {
+		// a generic container inside simple data (never shared, never holding simple nodes)
+		sub := &treeGen{r: r, storage: g.storage, big: g.big}
+		n := sub.root(depth - 1).clone()
+		n.g = true
+		return n
 	}
 	if g.share && len(g.pool) > 0 && r.Intn(6) == 0 {
 		return lib.Pick(r, g.pool)
